@@ -1,0 +1,19 @@
+//go:build verif
+
+package scheduler
+
+import "sort"
+
+// VerifJobKeys returns the keys of all scheduled jobs (sorted).
+func (s *Scheduler) VerifJobKeys() []string {
+	keys, err := s.scheduler.GetJobKeys()
+	if err != nil {
+		return nil
+	}
+	var out []string
+	for _, k := range keys {
+		out = append(out, k.String())
+	}
+	sort.Strings(out)
+	return out
+}
